@@ -442,6 +442,12 @@ func c13(run *ev.Run, tier string) {
 		c := baseCfg(false)
 		c.Info.MTime = time.Unix(1600000000, 0).UTC()
 		c.Info.RPM.BuildHost = "verif-host"
+		suid := filepath.Join(wd, "suid-tool")
+		_ = os.WriteFile(suid, []byte("tool\n"), 0o755)
+		_ = os.Chmod(suid, 0o755|os.ModeSetuid)
+		chgFile := filepath.Join(wd, "changelog.yaml")
+		_ = os.WriteFile(chgFile, []byte("- semver: \"1.0.0\"\n  date: 2020-01-01T00:00:00Z\n  packager: \"P <p@example.com>\"\n  changes:\n    - note: \"n\"\n"), 0o644)
+		c.Info.Changelog = chgFile
 		c.Info.Depends = []string{"libfoo (>= 1.2)", "plain", "plain", "libbar (<< 3)"} // items given twice stay as given
 		c.Info.Provides = []string{"virt (= 1.0)", "virt2", "virt2"}
 		c.Info.Replaces = []string{"old (<< 1.0)", "old (<< 1.0)", "older"}
@@ -453,17 +459,25 @@ func c13(run *ev.Run, tier string) {
 			{Source: payload, Destination: "/etc/ovr/noreplace.conf", Type: "config|noreplace"},
 			{Source: payload, Destination: "/etc/ovr/missingok.conf", Type: "config|missingok"},
 			{Source: payload, Destination: "/etc/ovr/rpm-only.conf", Type: "config|noreplace", Packager: "rpm"},
+			// a setuid source without a declared mode: the effective umask decides (the
+			// archlinux block sets one that also masks the special bits)
+			{Source: suid, Destination: "/opt/ovr/suid-tool"},
+			// an entry with a modification time of its own
+			{Source: payload, Destination: "/opt/ovr/dated.txt", FileInfo: &files.ContentFileInfo{MTime: time.Unix(1234567890, 0).UTC()}},
+			// an entry addressed to rpm at the path where deb generates its changelog
+			{Source: payload, Destination: "/usr/share/doc/ovr/changelog.Debian.gz", Packager: "rpm"},
 			// two different sources sent to the same directory destination
 			{Source: pre, Destination: "/opt/ovr/bin/"},
 			{Source: post, Destination: "/opt/ovr/bin/"},
 		}
 		c.Overrides = map[string]*nfpm.Overridables{
-			"archlinux": {ArchLinux: nfpm.ArchLinux{Scripts: nfpm.ArchLinuxScripts{PreUpgrade: pre, PostUpgrade: post}}},
+			"archlinux": {Umask: 0o7022, ArchLinux: nfpm.ArchLinux{Scripts: nfpm.ArchLinuxScripts{PreUpgrade: pre, PostUpgrade: post}}},
 			"apk":       {Depends: []string{"apk-dep>1"}},
 			// {format}.arch inside an override block is taken as written, also when
 			// it is spelled like a GOARCH name
 			"ipk": {IPK: nfpm.IPK{Arch: "amd64"}},
-			"deb": {Deb: nfpm.Deb{Arch: "arm7"}},
+			"rpm": {RPM: nfpm.RPM{Arch: "arm7"}},
+			// (deb has no override block here: its settings are the base settings)
 		}
 		y, _ := configYAML(c)
 		fresh := map[string][]byte{}
@@ -477,10 +491,29 @@ func c13(run *ev.Run, tier string) {
 			}
 			fresh[f] = res.Bytes
 			p := dec.Decode(f, res.Bytes, false)
-			if want := map[string]string{"ipk": "amd64", "deb": "arm7"}[f]; want != "" {
+			if want := map[string]string{"ipk": "amd64", "rpm": "arm7"}[f]; want != "" {
 				if got := decodedArch(f, p); got != want {
 					run.Violate("C13/"+f+"/format-specific-arch-from-override-not-verbatim", map[string]any{"got": got, "want": want})
 				}
+			}
+			if e := p.Find("/opt/ovr/suid-tool"); e != nil {
+				want := int64(0o4755)
+				if f == "archlinux" {
+					want = 0o755
+				}
+				if e.Mode&0o7777 != want {
+					run.Violate("C13/"+f+"/effective-umask-not-applied", map[string]any{"got": fmt.Sprintf("%o", e.Mode&0o7777), "want": fmt.Sprintf("%o", want), "umask_in_override_block": f == "archlinux"})
+				}
+			}
+			if e := p.Find("/opt/ovr/dated.txt"); e == nil || e.MTime != 1234567890 {
+				got := int64(-1)
+				if e != nil {
+					got = e.MTime
+				}
+				run.Violate("C13/"+f+"/per-entry-setting-lost-from-effective-contents/file_info.mtime", map[string]any{"got": got, "want": 1234567890, "has_override_block": c.Overrides[f] != nil})
+			}
+			if f == "deb" && p.Find("/usr/share/doc/ovr/changelog.Debian.gz") == nil {
+				run.Violate("C13/deb/generated-changelog-missing", map[string]any{"note": "an entry addressed to rpm names the same path"})
 			}
 			for _, want := range []string{"/opt/ovr/bin/preupgrade.sh", "/opt/ovr/bin/postupgrade.sh", "/opt/ovr/p.txt"} {
 				if p.Find(want) == nil {
